@@ -176,6 +176,8 @@ def rand_bytes(rng, n, nonul=False):
     lo = 1 if nonul else 0
     return bytes(rng.randint(lo, 255) for _ in range(n))
 
+BIG_SIZES = [255, 256, 257, 300, 511, 512, 513, 768, 1000, 1023, 1024]   # the extracted model reads lists by position (quadratic): no 64 KiB payloads
+
 def gen_value(rng, t):
     if t in K4:
         return ("4", rng.choice(BOUND32) if rng.random() < 0.6 else rng.getrandbits(32))
